@@ -65,6 +65,8 @@ func genC02(r *h.Rand, tier string) []h.Case {
 		hist = hist[:n/8]
 	}
 	cs = append(cs, hist...)
+	// the parser model against the real parser: whole trees with every Line, error lines and messages
+	cs = append(cs, genParseTree(r, "parsetree", n/2, "mixed")...)
 	return cs
 }
 
